@@ -114,7 +114,8 @@ type View interface {
 	WriteStriped(srcTy string, ins [][]int64, nils []bool) int
 	Read(dstTy string, n int, sentinel int64) (int, []int64)
 	ReadStriped(dstTy string, lens []int, nils []bool, sentinel int64) (int, [][]int64)
-	ChanIndex(c, i int) int
+	ChanIndex(c, i, arg int) int
+	ChanNew(c int)
 	ChanSample(c, i int) int64
 	ChanSet(c, i int, x int64)
 	ChanShape(c int) []int64
@@ -126,6 +127,21 @@ type View interface {
 type buf[T signal.SignalTypes] struct {
 	ty string
 	b  *signal.Buffer[T]
+	// channel views are taken once and kept for the life of the view (a C[T] must keep addressing
+	// its parent through later appends and sample appends)
+	chans map[int]signal.C[T]
+}
+
+func (v *buf[T]) channel(c int) signal.C[T] {
+	if cv, ok := v.chans[c]; ok {
+		return cv
+	}
+	if v.chans == nil {
+		v.chans = map[int]signal.C[T]{}
+	}
+	cv := v.b.Channel(c)
+	v.chans[c] = cv
+	return cv
 }
 
 func (v *buf[T]) Ty() string    { return v.ty }
@@ -191,26 +207,40 @@ func (v *buf[T]) OneSample(k int) View {
 	o.SetSample(0, v.b.Sample(k))
 	return &buf[T]{ty: v.ty, b: o}
 }
-func (v *buf[T]) ChanIndex(c, i int) int {
+func (v *buf[T]) ChanIndex(c, i, arg int) int {
+	cv := v.channel(c)
 	begin()
-	r := v.b.Channel(c).BufferIndex(c, i)
+	r := cv.BufferIndex(arg, i)
 	end()
 	return r
 }
 func (v *buf[T]) ChanSample(c, i int) int64 {
+	cv := v.channel(c)
 	begin()
-	y := v.b.Channel(c).Sample(i)
+	y := cv.Sample(i)
 	end()
 	return codeOf(y)
 }
 func (v *buf[T]) ChanSet(c, i int, x int64) {
 	y := T(x)
+	cv := v.channel(c)
 	begin()
-	v.b.Channel(c).SetSample(i, y)
+	cv.SetSample(i, y)
 	end()
 }
+
+// ChanNew takes a fresh channel view (measured: Channel() itself must not allocate).
+func (v *buf[T]) ChanNew(c int) {
+	begin()
+	cv := v.b.Channel(c)
+	end()
+	if v.chans == nil {
+		v.chans = map[int]signal.C[T]{}
+	}
+	v.chans[c] = cv
+}
 func (v *buf[T]) ChanShape(c int) []int64 {
-	ch := v.b.Channel(c)
+	ch := v.channel(c)
 	return []int64{int64(ch.Channels()), int64(ch.Length()), int64(ch.Capacity())}
 }
 
